@@ -36,7 +36,9 @@ LOGIN = ["USER anonymous", "USER alice", "USER bob", "USER nobody", "USER eve", 
          "PASS pässwörd", "PASS påsswørd", "PASS p?ssw?rd", "PASS password",
          "PASV", "@data", "CWD /d", "RNFR /g", "REST 2",
          # login names with control characters / characters that are not printable: names like any other
-         "USER bob\x1b[2J", "USER x\ty", "USER \x7f", "USER ali\u200bce"]
+         "USER bob\x1b[2J", "USER x\ty", "USER \x7f", "USER ali\u200bce",
+         # the right password / a known name followed by a character that is no blank (though str.rstrip() takes it)
+         "PASS pw\xa0", "PASS pw\x1f", "PASS pw\u3000", "USER bob\xa0"]
 PROBES = ["PWD", "CWD /d", "CDUP", "MKD /new", "RMD /home", "DELE /g", "RNFR /g", "RNTO /h2", "MLST /g", "MLSD /", "LIST /",
           "RETR /g", "STOR /up", "APPE /g", "TYPE I", "PBSZ 0", "PROT P", "PASV", "EPSV", "ABOR", "REST 1", "SYST", "FOO",
           "@data"]
